@@ -8,10 +8,11 @@ import Paho.Driver.LF
 import Paho.Driver.Dispatch
 import Paho.Driver.Helpers
 import Paho.Driver.Threads
+import Paho.Driver.Ws
 open Paho.Driver
 
 def drivers : List (String × Drv) :=
-  [("trie", trieDrv), ("mid", midDrv), ("validate", validateDrv), ("session", sessionDrv), ("session-inv", sessionInvDrv), ("props", propsDrv), ("codec", codecDrv), ("decode", decodeDrv), ("reader", readerDrv), ("loopforever", lfDrv), ("dispatch", dispatchDrv), ("helpers", helpersDrv), ("threads", threadsDrv)]
+  [("trie", trieDrv), ("mid", midDrv), ("validate", validateDrv), ("session", sessionDrv), ("session-inv", sessionInvDrv), ("props", propsDrv), ("codec", codecDrv), ("decode", decodeDrv), ("reader", readerDrv), ("loopforever", lfDrv), ("dispatch", dispatchDrv), ("helpers", helpersDrv), ("threads", threadsDrv), ("ws", wsDrv), ("wsbad", wsDrv)]
 
 def main (args : List String) : IO UInt32 := do
   match args with
